@@ -19,6 +19,9 @@ L.update(lemmas(COQ + '/Proofs/C15Owners.v'))
 L.update(lemmas(COQ + '/Proofs/C15Strftime.v'))
 L.update(lemmas(COQ + '/Proofs/C15Wide.v'))
 L.update(lemmas(COQ + '/Proofs/C15Text.v'))
+for extra in ('C15Utf8', 'C15SfItems', 'C15Parse', 'C15Deep', 'C15Format', 'C15Errors'):
+    if os.path.exists(COQ + '/Proofs/%s.v' % extra):
+        L.update(lemmas(COQ + '/Proofs/%s.v' % extra))
 
 SECTIONS = [
  ("NaiveDate constructors (C01): every i32 / u32 argument; never a trap; the date returned is valid", [
@@ -76,6 +79,8 @@ SECTIONS = [
    ('C15_dtz_with_date_field_partial', 'dtz_with_date_field_partial', 'older form: wall clock inside the NaiveDateTime range'),
    ('C15_dtz_days_partial', 'dtz_days_partial', 'older form: as above'),
    ('C15_dtz_months_partial', 'dtz_months_partial', 'older form: as above'),
+   ('C15_mlt_selectors', 'mlt_selectors', 'MappedLocalTime::single / earliest / latest are pattern matches in the model (no trapping step); what they return'),
+   ('C15_offset_from_local_total', 'offset_from_local_total', 'TimeZone::offset_from_local_date / offset_from_local_datetime of FixedOffset and Utc (op c15.offlocal): the constant answer Single(self), twice'),
  ]),
  ("Month stepping, date-field replacement, week helpers (C08): every date, every u32 / i32 argument", [
    ('C15_date_months_total', 'date_months_total', ''),
@@ -93,7 +98,10 @@ SECTIONS = [
    ('C15_parsed_setters_total', 'parsed_setters_total', 'all 22 set_* methods, every i64 argument'),
    ('C15_to_naive_date_total', 'to_naive_date_total', 'every field state the setters can produce (typed); a returned date is valid'),
    ('C15_to_naive_time_total', 'to_naive_time_total', ''),
-   ('C15_to_naive_datetime_with_offset_total', 'to_naive_datetime_with_offset_total', 'every i32 offset; includes the minimum timestamp with second 60 (dd0e5ce); to_datetime / to_datetime_with_timezone go through it (correspondence + judge for their last step)'),
+   ('C15_to_naive_datetime_with_offset_total', 'to_naive_datetime_with_offset_total', 'every i32 offset; includes the minimum timestamp with second 60 (dd0e5ce)'),
+   ('C15_to_datetime_total', 'to_datetime_total', 'Parsed::to_datetime on every typed field state, the last step (offset range check, from_local_datetime) included (C14_to_datetime_never_panics); a returned date-time is well formed'),
+   ('C15_to_datetime_with_timezone_total', 'to_datetime_with_timezone_total', 'Parsed::to_datetime_with_timezone for every FixedOffset / Utc zone (C14_to_datetime_with_timezone_never_panics); the result carries the zone\'s offset'),
+   ('C15_parsed_getters_valid', 'parsed_getters_valid', 'the 21 getters (year .. offset) are plain projections in the model (no trapping step): on every typed state -- every state the setters (C14_setters_keep_typed) and the readers (C15_parse_items_total) produce -- a returned value is a value of the getter\'s Rust type'),
  ]),
  ("Weekday / Month conversions and FromStr (C19)", [
    ('C15_weekday_month_conversions', 'weekday_month_conversions', 'all thirteen FromPrimitive / TryFrom conversions are plain functions in the model: a returned value is a Weekday / Month'),
@@ -105,9 +113,27 @@ SECTIONS = [
    ('C15_ndt_links_nonleap', 'ndt_links_nonleap', 'the older route: C17 premise discharged from C02 and C03 for non-leap date-times'),
    ('C15_ndt_round_total_partial', 'ndt_round_total_partial', 'older form: non-leap date-times'),
  ]),
- ("Parsers", [
+ ("Parsers.  [str_ok s]: s is well-formed UTF-8 (Base/Utf8.v; the same strings as Model/Strftime.v's predicate: C15_utf8_predicates_agree) of a length a Rust string can have (at most u64::MAX bytes; the RFC 2822 reader and the format-string iterator do usize arithmetic on lengths).  The premise SF_ERROR_CONSUMES = true is the translator's reading of the repaired error() of src/format/strftime.rs (d664290), as in the StrftimeItems theorems below", [
    ('C15_parse_from_rfc3339_total', 'parse_from_rfc3339_total', 'every well-formed UTF-8 string (C10)'),
-   ('C15_parse_items_total_partial', 'parse_items_total', 'format::parse / parse_and_remainder with an explicit item list (C13).  PARTIAL: item lists without Fixed::RFC2822 (C11 owns that reader: C11_comment_total, C11_zone_scanner_total, C11_no_panic_on_grammar_partial; otherwise correspondence + judge)'),
+   ('C15_parse_from_rfc2822_total', 'parse_from_rfc2822_total', 'DateTime::parse_from_rfc2822: EVERY string (C11_parse_never_panics + C14_to_datetime_never_panics); a returned date-time is well formed'),
+   ('C15_parse_items_total', 'parse_items_full', 'format::parse / parse_and_remainder over EVERY item list whose literals are strings, the Fixed::RFC2822 item included (C13_parse_never_panics), every input: never a trap; an accepted input leaves a typed field state (Proofs/C15Parse.v) and a well-formed remainder.  Supersedes C15_parse_items_total_partial'),
+   ('C15_parse_items_total_partial', 'parse_items_total', 'the older form (kept under its name; superseded by C15_parse_items_total): item lists without Fixed::RFC2822'),
+   ('C15_utf8_predicates_agree', 'utf8_valid_eq', 'the two executable statements of UTF-8 well-formedness in the models accept the same strings'),
+   ('C15_strftime_items_wellformed', 'yields_wf', 'every item the strict format-string iterator yields is well formed: a Literal carries a well-formed string ([st_ok]: strict mode, well-formed remainder of at most u64::MAX bytes, well-formed queued items; [st_ok_new]: StrftimeItems::new(fmt) is such a state)'),
+   ('C15_date_parse_from_str_total', 'date_parse_from_str_total', 'NaiveDate::parse_from_str(s, fmt): EVERY format string, EVERY input -- iterator, lazily driven reader (C13_parse_sf_loop_is_parse_items), to_naive_date; a returned date is valid'),
+   ('C15_time_parse_from_str_total', 'time_parse_from_str_total', 'NaiveTime::parse_from_str'),
+   ('C15_ndt_parse_from_str_total', 'ndt_parse_from_str_total', 'NaiveDateTime::parse_from_str'),
+   ('C15_dt_parse_from_str_total', 'dt_parse_from_str_total', 'DateTime::<FixedOffset>::parse_from_str'),
+   ('C15_date_parse_and_remainder_total', 'date_parse_and_remainder_total', 'T::parse_and_remainder(s, fmt): the value is valid and the remainder handed back is a string again'),
+   ('C15_time_parse_and_remainder_total', 'time_parse_and_remainder_total', ''),
+   ('C15_ndt_parse_and_remainder_total', 'ndt_parse_and_remainder_total', ''),
+   ('C15_dt_parse_and_remainder_total', 'dt_parse_and_remainder_total', ''),
+   ('C15_naive_date_from_str_total', 'naive_date_from_str_total', 'the FromStr impls built on the item reader with the fixed item lists of Gen/TextForms.v (Model/FromStr.v): EVERY input'),
+   ('C15_naive_time_from_str_total', 'naive_time_from_str_total', 'three reader calls (the second may fail and is then ignored) and to_naive_time'),
+   ('C15_naive_datetime_from_str_total', 'naive_datetime_from_str_total', ''),
+   ('C15_datetime_fixed_from_str_total', 'datetime_fixed_from_str_total', 'the relaxed RFC 3339 reader (C13_rfc3339_relaxed_never_panics), trailing white space, to_datetime'),
+   ('C15_datetime_utc_from_str_total', 'datetime_utc_from_str_total', 'the same, then with_timezone(&Utc)'),
+   ('C15_fixed_offset_from_str_total', 'fixed_offset_from_str_total', 'the offset scanner (C13_timezone_offset_never_panics), then east_opt'),
  ]),
  ("The RFC 3339 renderers never trap: EVERY well-formed date-time -- any year (the one-day headroom seen through an offset included: the repaired defect of to_rfc3339_opts), any offset (seconds included), leap-second fraction on any second -- and every SecondsFormat (0 Secs .. 4 AutoSi).  The writer is total (Proofs/C15Text.v on the writer lemmas of C09 / C10 / C20); what the text IS is C10's theorem on its writer domain (C10_writer_in_grammar)", [
    ('C15_to_rfc3339_total', 'to_rfc3339_total', ''),
@@ -135,7 +161,8 @@ SECTIONS = [
 ]
 HEADER = '''(** C15 -- fallible operations fail by value, not by panic or hang.
     Theorem-only file (written by tools/c15_mkprops.py): each theorem is closed by [exact] of a lemma of
-    Proofs/C15.v, Proofs/C15Owners.v, Proofs/C15Wide.v, Proofs/C15Text.v or Proofs/C15Strftime.v and followed by
+    Proofs/C15.v, Proofs/C15Owners.v, Proofs/C15Wide.v, Proofs/C15Text.v, Proofs/C15Strftime.v, Proofs/C15Deep.v (with C15Parse.v,
+    C15SfItems.v, C15Utf8.v) and followed by
     [Print Assumptions].
 
     C15 is cross-cutting: its model is the union of all properties' models (Model/C15.v) and its
@@ -155,8 +182,9 @@ HEADER = '''(** C15 -- fallible operations fail by value, not by panic or hang.
     Which inventory entries (gen/C15_inventory.json, printed in the evidence) have such a theorem and
     which are covered by correspondence + judge only is listed at the end of this file. *)
 From Coq Require Import ZArith List Bool String.
-From V Require Import Base.Int Base.IO Spec.Gregorian Model.Strftime Proofs.C15 Proofs.C15Owners Proofs.C15Strftime Proofs.C15Wide Proofs.C15Text.
-From V Require Model.Date Model.Time Model.DateTime Model.TimeDelta Model.DateExtra Model.Parsed Model.Parse Model.Rfc3339 Model.Show Model.Round Model.C02 Model.C15 Model.C19 Gen.Strftime.
+From V Require Import Base.Int Base.IO Spec.Gregorian Model.Strftime Proofs.C15 Proofs.C15Owners Proofs.C15Strftime Proofs.C15Wide Proofs.C15Text Proofs.C15Utf8 Proofs.C15SfItems Proofs.C15Deep.
+From V Require Model.Date Model.Time Model.DateTime Model.TimeDelta Model.DateExtra Model.Parsed Model.Parse Model.Rfc3339 Model.Show Model.Round Model.C02 Model.C15 Model.C19 Gen.Strftime
+               Base.Utf8 Model.Scan Model.FromStr Model.Rfc2822 Proofs.C13Total Proofs.C13Time Proofs.C14.
 Import ListNotations.
 Open Scope Z_scope.
 
@@ -185,6 +213,9 @@ out.append(TAIL)
 if 'wide_hypotheses_inhabited' in L:
     out.append('(* ... and those of the full forms: [z_wide] = MAX_UTC\'s last second with a leap-second fraction seen from +02:00 (wall clock\n   one day outside the date range), [l_wide] = 2016-12-31T23:59:60.5 (Proofs/C15Text.v) *)')
     out.append('Example C15_wide_hypotheses_inhabited :\n  %s.\nProof. exact wide_hypotheses_inhabited. Qed.\nPrint Assumptions C15_wide_hypotheses_inhabited.\n' % L['wide_hypotheses_inhabited'][1])
+if 'deep_hypotheses_inhabited' in L:
+    out.append('(* ... and those of the text entry points (Proofs/C15Deep.v): [ex_fmt] = "%a, %d %b %Y %T %z \\u00e9", [ex_text] = "Tue, 01 Jul 2003 10:52:37 +0200 \\u00e9" *)')
+    out.append('Example C15_deep_hypotheses_inhabited :\n  %s.\nProof. exact deep_hypotheses_inhabited. Qed.\nPrint Assumptions C15_deep_hypotheses_inhabited.\n' % L['deep_hypotheses_inhabited'][1])
 # closing comment: the inventory by kind of no-panic evidence
 table = json.load(open(os.path.join(ROOT, 'gen', 'C15_inventory.json')))
 groups = {}
